@@ -30,7 +30,7 @@ try:
     subprocess.check_call(['/venv/bin/python', '-c', 'import sys; sys.path.insert(0, %r); import prettyprinter' % wt])
     results = {}
     for c in [c for c in a.checks.split(',') if c]:
-        env = dict(os.environ, VERIF_REPO=wt)
+        env = dict(os.environ, VERIF_REPO=wt, VERIF_EVIDENCE_DIR=os.path.join(tmp, 'evidence'))
         r = subprocess.run(['/venv/bin/python', '-m', 'mc.run', c, '--tier', a.tier], cwd='/verif', env=env,
                            stdout=subprocess.PIPE, stderr=subprocess.STDOUT, text=True)
         viol = [l for l in r.stdout.splitlines() if l.startswith('VIOLATION')]
